@@ -193,6 +193,13 @@ where
                     .arg_to_lit(reduced_af.argument_set().get_argument(a.label()).unwrap())
             })
             .collect::<Vec<Literal>>();
+        // a list of arguments is a disjunction: it cannot be expressed by assumptions
+        let assumptions = if assumptions.len() > 1 {
+            solver.add_clause(assumptions);
+            vec![]
+        } else {
+            assumptions
+        };
         match solver.solve_under_assumptions(&assumptions).unwrap_model() {
             Some(model) => {
                 let cc_ext = self
